@@ -53,6 +53,12 @@ func (ex *Executor) call(st *State, fr *frame, c *ssa.CallCommon, site ssa.Value
 			}
 		}
 		key := c.Method.FullName()
+		if impl := defaultImpl[key]; impl != "" {
+			if fn := ex.Prog.Funcs[impl]; fn != nil {
+				ex.UsedEnv["default implementation: "+key+" -> "+impl] = true
+				return ex.callFunc(st, fr, fn, append([]Value{recv}, args...), nil, pos, site)
+			}
+		}
 		cc := &callCtx{Name: key, Recv: recv, Args: args, Sig: sig, Pos: pos, Fr: fr, Site: site}
 		if rt, ok := recv.(*Term); ok {
 			ex.nilCheck(st, rt, "method call on nil interface ("+c.Method.Name()+")", pos)
@@ -118,9 +124,10 @@ func (ex *Executor) callFunc(st *State, fr *frame, fn *ssa.Function, args []Valu
 		}
 		ex.Inlined[name] = true
 		fr.callee = fn
+		base := st.Clone()
 		rs := ex.exploreInline(fn, st, args, bind, fr)
 		fr.callee = nil
-		return rs
+		return ex.mergePure(base, rs)
 	}
 	if rs := ex.genericStatic(st, cc, fn); rs != nil {
 		return rs
@@ -179,6 +186,18 @@ func (ex *Executor) builtin(st *State, fr *frame, b *ssa.Builtin, args []Value, 
 	case "append":
 		return one(st, ex.appendOp(st, args[0], args[1], c.Args[0].Type(), pos))
 	case "copy":
+		if dst, ok := args[0].(*BufV); ok {
+			if src := ex.bytesTerm(st, args[1]); src != nil {
+				dl := Sub(dst.Hi, dst.Lo)
+				n := Ite(Le(StrLen(src), dl), StrLen(src), dl)
+				data := src
+				if Le(StrLen(src), dl) != TTrue {
+					data = StrSub(src, IntLit(0), n)
+				}
+				ex.bufWrite(st, dst, IntLit(0), data)
+				return one(st, n)
+			}
+		}
 		st.Note("builtin copy")
 		return one(st, ex.Fresh("copied", SInt))
 	case "delete":
@@ -481,3 +500,167 @@ func (ex *Executor) genericStatic(st *State, c *callCtx, fn *ssa.Function) []cal
 }
 
 func fmtPos(p string) string { return fmt.Sprint(p) }
+
+// defaultImpl: interface components verified together with their shipped
+// default implementation (assumption: the configuration uses the default).
+var defaultImpl = map[string]string{
+	"(" + abPkg + ".OneTimeTokenGenerator).GenerateToken": ":(*Sha512TokenGenerator).GenerateToken",
+	"(" + abPkg + ".OneTimeTokenGenerator).ParseToken":    ":(*Sha512TokenGenerator).ParseToken",
+	"(" + abPkg + ".OneTimeTokenGenerator).TokenSize":     ":(*Sha512TokenGenerator).TokenSize",
+}
+
+// mergePure joins the outcomes of an inlined call that had no side effects
+// (no events, no writes) into one outcome whose result is an ite over the
+// outcomes' branch conditions. This keeps plumbing helpers (loggers,
+// localisation, accessors) from multiplying paths.
+func (ex *Executor) mergePure(base *State, rs []callResult) []callResult {
+	var normal []callResult
+	var rest []callResult
+	for _, r := range rs {
+		if r.Panic {
+			rest = append(rest, r)
+		} else {
+			normal = append(normal, r)
+		}
+	}
+	if len(normal) < 2 {
+		return rs
+	}
+	for _, r := range normal {
+		s := r.St
+		if len(s.Trace) != len(base.Trace) || s.Bounded != base.Bounded || s.NowSeq != base.NowSeq || len(s.Overlay) != len(base.Overlay) {
+			return rs
+		}
+		if len(s.PC) < len(base.PC) {
+			return rs
+		}
+		for k, v := range base.Cells {
+			if nv, ok := s.Cells[k]; !ok || nv != v {
+				return rs
+			}
+		}
+		for k, v := range s.UHeap {
+			if base.UHeap[k] != v {
+				return rs
+			}
+		}
+		if !mergeable(r.Ret) {
+			return rs
+		}
+	}
+	// merge
+	m := normal[len(normal)-1].St.Clone()
+	m.PC = append([]*Term(nil), base.PC...)
+	var conds []*Term
+	for _, r := range normal {
+		conds = append(conds, And(r.St.PC[len(base.PC):]...))
+	}
+	ret := normal[len(normal)-1].Ret
+	for i := len(normal) - 2; i >= 0; i-- {
+		nr, ok := ex.mergeValues(m, conds[i], normal[i].Ret, ret)
+		if !ok {
+			return rs
+		}
+		ret = nr
+	}
+	m.Assume(Or(conds...))
+	seen := map[string]bool{}
+	m.Facts = nil
+	m.Notes = nil
+	for _, r := range normal {
+		for _, f := range r.St.Facts {
+			if !seen[f.String()] {
+				seen[f.String()] = true
+				m.Facts = append(m.Facts, f)
+			}
+		}
+		for _, n := range r.St.Notes {
+			m.Note("%s", n)
+		}
+		// cells allocated inside the callee (unreachable afterwards except through ret)
+		for k, v := range r.St.Cells {
+			if _, ok := m.Cells[k]; !ok {
+				m.Cells[k] = v
+			}
+		}
+	}
+	return append(rest, callResult{St: m, Ret: ret})
+}
+
+func mergeable(v Value) bool {
+	switch x := v.(type) {
+	case nil:
+		return true
+	case *Term, *TimeV, *BytesV:
+		return true
+	case *StructV:
+		for _, f := range x.F {
+			if !mergeable(f) {
+				return false
+			}
+		}
+		return true
+	case *TupleV:
+		for _, f := range x.V {
+			if !mergeable(f) {
+				return false
+			}
+		}
+		return true
+	case *SymSliceV:
+		return true
+	}
+	return false
+}
+
+func (ex *Executor) mergeValues(st *State, c *Term, a, b Value) (Value, bool) {
+	switch x := a.(type) {
+	case nil:
+		return nil, b == nil
+	case *Term:
+		if y, ok := b.(*Term); ok && x.S == y.S {
+			return Ite(c, x, y), true
+		}
+	case *TimeV:
+		if y, ok := b.(*TimeV); ok {
+			return &TimeV{T: Ite(c, x.T, y.T)}, true
+		}
+	case *BytesV:
+		if y, ok := b.(*BytesV); ok {
+			return &BytesV{T: Ite(c, x.T, y.T)}, true
+		}
+	case *StructV:
+		if y, ok := b.(*StructV); ok && len(x.F) == len(y.F) {
+			n := &StructV{T: x.T}
+			for i := range x.F {
+				f, ok := ex.mergeValues(st, c, x.F[i], y.F[i])
+				if !ok {
+					return nil, false
+				}
+				n.F = append(n.F, f)
+			}
+			return n, true
+		}
+	case *TupleV:
+		if y, ok := b.(*TupleV); ok && len(x.V) == len(y.V) {
+			n := &TupleV{}
+			for i := range x.V {
+				f, ok := ex.mergeValues(st, c, x.V[i], y.V[i])
+				if !ok {
+					return nil, false
+				}
+				n.V = append(n.V, f)
+			}
+			return n, true
+		}
+	case *SymSliceV:
+		if y, ok := b.(*SymSliceV); ok && x.Arr.S == y.Arr.S {
+			n := &SymSliceV{Arr: Ite(c, x.Arr, y.Arr), Len: Ite(c, x.Len, y.Len), ElemT: x.ElemT}
+			if x.Ref != nil && y.Ref != nil {
+				n.Ref = Ite(c, x.Ref, y.Ref)
+			}
+			return n, true
+		}
+	}
+	return nil, false
+}
